@@ -5,8 +5,10 @@ executed multiset of each build."""
 import json
 import vlib, buildlib as bl, histcheck as hc
 
+# (the class cache-disabled-clobbers-results, finding C02-F2, is gone: a build with --enable-cache=false writes no target
+# result, so a re-execution after a cache-disabled build is a violation like any other -- witness-cache-disabled and the
+# 'toggle' streams below)
 GUARDS = [("file-restore-parent-missing", hc.g_no_subdir_file_restore),
-          ("cache-disabled-clobbers-results", hc.g_cache_never_disabled),
           ("alias-dep-not-in-key", hc.g_no_alias_deps)]
 # wrong_kind: a directory (with content) where a file output belongs / a file where a directory output belongs -- an ordinary
 # perturbation since the repair of C06-F3 (both handlers replace what is in the way)
@@ -26,6 +28,11 @@ def plan(features, mode):
         for (i, k) in r.sample(ts, min(len(ts), 1 + r.below(3))):
             h.perturb(i, k, r.choice(PERTURB))
         h.build(cfg); notes.append(("noop", len(h.builds) - 1))
+        # a build with the cache disabled (runs everything, must store nothing), then a cached build: nothing may run
+        # (C13_cached_build_after_cache_off_is_noop; the former finding C02-F2)
+        if r.chance(1, 2):
+            h.build({"mode": mode, "cache": False})
+            h.build(cfg); notes.append(("noop", len(h.builds) - 1))
         # comment-only command edit: the target re-executes, its dependants are restored (early cut-off)
         tis = [i for i, n in enumerate(h.snap["nodes"]) if n["k"] == "t"]
         # (an output-less target exposes its change hash as its output hash by design, so only a target
@@ -141,7 +148,8 @@ def run(out, tier):
                         bl.label(cur["nodes"][note[2]]), sorted(extra)), predicted, GUARDS)
     hc.finish(out, "C02", batch,
               "histories: build, no-op rebuild, perturbation of 1-3 output paths (deleted, parent directory deleted, modified, truncated, "
-              "file where a directory should be, directory with content where a file should be), rebuild, comment-only command edit, rebuild, output-relevant edit, rebuild; both "
+              "file where a directory should be, directory with content where a file should be), rebuild, [build with --enable-cache=false, rebuild: "
+              "nothing may run], comment-only command edit, rebuild, output-relevant edit, rebuild; both "
               "load_outputs modes; 'clean' stream (guards hold) and 'full' stream (aliases, sub-directory outputs, no-cache); "
               "non-trivial = at least two source/perturb operations and two builds", oracle_evals=evals,
               extra={"perturbations": hc.perturbation_histogram(batch)})
